@@ -570,6 +570,22 @@ main(int argc, char **argv)
 					TP_VIOL("accept:advertised-length-record-refused", what);
 				}
 				tp_snap_restore(&sn, ep);
+				/* (a0) the other end of the range: a record without any plaintext (RFC 5246 6.2.1 allows empty application-data
+				   fragments) followed by a record of one byte: both accepted, the byte delivered */
+				{
+					size_t f0;
+					cs = Z.pm.m.rm.cs[d]; rm_forge_defaults(&fo);
+					f0 = rm_seal(&cs, 23, big, 0, &fo, &r, 1, rec);
+					fl = f0 + rm_seal(&cs, 23, big, 1, &fo, &r, 1, rec + f0);
+					snprintf(tp_case, sizeof tp_case, "%s forged dir=%d plaintext=0 then 1 wire=%zu+%zu", base, d, f0, fl - f0);
+					res = deliver_forged(ep, rec, fl, 1);
+					vf_stat("forged_empty_records", 1);
+					if (res != 1) {
+						snprintf(what, sizeof what, "conformant empty record followed by a one-byte record was not accepted: result=%d err=%d", res, br_ssl_engine_last_error(ep->eng));
+						TP_VIOL("accept:empty-record-refused", what);
+					}
+					tp_snap_restore(&sn, ep);
+				}
 				/* (b) no negotiated limit: the largest record that fits the input buffer */
 				if (!(d == 1 && sh_code)) {
 					size_t room = in_len - 5, ovh, pl;
